@@ -115,6 +115,13 @@ func (s *sink) DispatchMetricMap(ctx context.Context, mm *gostatsd.MetricMap) {
 }
 
 func runSchedule(t *testing.T, tw *trace.Writer, c *scase, idx int, res *vh.Result) {
+	defer func() {
+		// goroutines that stay blocked for ever make the bubble panic on exit; the trace written so far is still judged
+		if x := recover(); x != nil {
+			res.Note("bubble left with blocked goroutines: %v", x)
+			res.Hit("goroutines-left-blocked")
+		}
+	}()
 	synctest.Test(t, func(t *testing.T) {
 		ctx, cancel := context.WithCancel(context.Background())
 		logger := logrus.New()
